@@ -222,9 +222,9 @@ func (t *hTask) Run(tid uint64) error {
 func (t *hTask) HandleError(e error) {}
 
 type poolRun struct {
-	sc    *PoolScenario
-	s     *sched.Scheduler
-	tp    *pool.ThreadPool
+	sc     *PoolScenario
+	s      *sched.Scheduler
+	tp     *pool.ThreadPool
 	mu     sync.Mutex
 	count  map[int]int
 	closed int32 // set when the run is over: clients and tasks stop submitting
